@@ -197,7 +197,7 @@ def libpub(pub):
     return r
 
 
-def ed_verify_case(cv, pub, ph, ctx, msg, sig, tag, acc, demand=False, full=False):
+def ed_verify_case(cv, pub, ph, ctx, msg, sig, tag, acc, demand=False, full=False, size=None):
     """one verification of (public key encoding, message, signature) -> (verdict | 'n/e', reason, library outcome)"""
     from Crypto.Signature import eddsa
     case = {"part": "ed-verify", "curve": cv, "pub": pub, "ph": ph, "ctx": ctx, "msg": msg, "sig": sig, "tag": tag,
@@ -229,7 +229,7 @@ def ed_verify_case(cv, pub, ph, ctx, msg, sig, tag, acc, demand=False, full=Fals
         if verdict == "reject":
             acc.violation("C04/eddsa/%s/accepts-%s" % (cv, reason),
                           pre + ": accepted, RFC 8032 rejects it (%s)" % reason, case,
-                          script=_script(cv, pub, ph, ctx, msg, sig, "invalid (%s)" % reason))
+                          script=_script(cv, pub, ph, ctx, msg, sig, "invalid (%s)" % reason), size=size)
         out2 = B.lib_outcome(ver.verify, obj, sig)
         if out2[0] != "accept":
             acc.violation("C04/eddsa/%s/repeated-verify-differs" % cv,
@@ -243,7 +243,8 @@ def ed_verify_case(cv, pub, ph, ctx, msg, sig, tag, acc, demand=False, full=Fals
                           script=_script(cv, pub, ph, ctx, msg, sig, "valid"))
         else:
             acc.observe("eddsa verify refuses a standard-valid (key, message, signature) that sign() does not emit: %s, %s"
-                        % (cv, tag.split(" S=")[0]))
+                        % (cv, "crafted small-order A / R with S = 0 (the library refuses some small-order points)"
+                           if tag.startswith("A=") else tag))
     return verdict, reason, res
 
 
@@ -425,9 +426,10 @@ def worker(shards):
                 _tally(acc, cv, ph, ctx, tag, *ed_verify_case(cv, kd["pub"], ph, ctx, msg, cand, tag, acc, demand=(tag == "authentic")))
                 n += 1
             if not flips or flips[0] == 0:
-                for tag, pub in pubkey_variants(cv, kd["pub"]):
+                for pi, (tag, pub) in enumerate(pubkey_variants(cv, kd["pub"])):
                     _tally(acc, cv, ph, ctx, "pubkey: " + tag.split("=")[0],
-                           *ed_verify_case(cv, pub, ph, ctx, msg, sig, "genuine signature, public key re-encoded: " + tag, acc))
+                           *ed_verify_case(cv, pub, ph, ctx, msg, sig, "genuine signature, public key re-encoded: " + tag, acc,
+                                           size=50000000 + vi * 100 + pi))
                     n += 1
             last = {"part": "eddsa-genuine-candidates", "curve": cv, "variant": vname(ph, ctx), "message": mn,
                     "bit_flip_slice": list(flips) if flips else None, "candidates": n}
@@ -451,10 +453,10 @@ def worker(shards):
             for idx, (a, r) in enumerate(pairs):
                 if idx % nparts != part:
                     continue
-                for stag, S in s_values(cv):
+                for si, (stag, S) in enumerate(s_values(cv)):
                     sig = r[1] + S.to_bytes(nb, "little")
                     tag = "A=%s R=%s S=%s" % (a[0], r[0], stag)
-                    v = ed_verify_case(cv, a[1], ph, ctx, msg, sig, tag, acc, full=True)
+                    v = ed_verify_case(cv, a[1], ph, ctx, msg, sig, tag, acc, full=True, size=vi * 1000000 + idx * 10 + si)
                     acc.count("evaluations")
                     acc.count("crafted_cases")
                     acc.count("ed_%s" % ("accept" if v[2] == "accept" else "reject" if v[2] == "ValueError" else "other"))
